@@ -156,7 +156,31 @@ pub fn run(repo: &str) -> Result<Value, String> {
         let (l, _) = lits_in(&f, func);
         fn_lits.push(json!({"fn": func, "lits": l}));
     }
+    // Unicode classes as the toolchain's std decides them (the model's `is_alphabetic` / `is_lowercase` on non-ASCII)
+    let ranges = |f: &dyn Fn(char) -> bool| -> Vec<Value> {
+        let mut out: Vec<Value> = Vec::new();
+        let mut start: Option<u32> = None;
+        for cp in 0x80u32..=0x10FFFF {
+            let ok = char::from_u32(cp).map(|c| f(c)).unwrap_or(false);
+            match (ok, start) {
+                (true, None) => start = Some(cp),
+                (false, Some(st)) => {
+                    out.push(json!([st, cp - 1]));
+                    start = None;
+                }
+                _ => {}
+            }
+        }
+        if let Some(st) = start {
+            out.push(json!([st, 0x10FFFF]));
+        }
+        out
+    };
+    let alpha_ranges = ranges(&|c| c.is_alphabetic());
+    let lower_ranges = ranges(&|c| c.is_lowercase());
     Ok(json!({
+        "unicode_alphabetic": alpha_ranges,
+        "unicode_lowercase": lower_ranges,
         "fn_literals": fn_lits,
         "hash_structs": st.found.iter().map(|(n, f)| json!({"name": n, "fields": f})).collect::<Vec<_>>(),
         "generated_patterns": patterns,
